@@ -96,6 +96,38 @@ func init() {
 				{File: mf, Old: "\t// Stop reconnector temporarily to prevent immediate reconnection\n\tm.reconnector.Pause()\n", New: ""},
 				{File: mf, Old: "func (m *Manager) DisconnectAll() error {\n\tm.mu.Lock()\n", New: "func (m *Manager) DisconnectAll() error {\n\tm.reconnector.Pause()\n\tm.mu.Lock()\n"},
 			}},
+			// round 3: refactoring classes
+			{Name: "rewrite: timers stopped through a helper method of the state", Edits: []Edit{
+				{File: f, Old: "\t// Cancel any existing timer\n\tif state.timer != nil {\n\t\tstate.timer.Stop()\n\t}\n", New: "\tstate.stopTimer()\n"},
+				{File: f, Old: "\t\t\tif state.timer != nil {\n\t\t\t\tstate.timer.Stop()\n\t\t\t}\n\t\t\tdelay := r.addJitter(state.nextDelay)", New: "\t\t\tstate.stopTimer()\n\t\t\tdelay := r.addJitter(state.nextDelay)"},
+				{File: f, Old: "// addJitter adds random jitter to a duration.", New: "func (s *reconnectState) stopTimer() {\n\tif s.timer == nil {\n\t\treturn\n\t}\n\ts.timer.Stop()\n}\n\n// addJitter adds random jitter to a duration."},
+			}},
+			{Name: "rewrite: Schedule stops the timer only of an existing state", Edits: []Edit{
+				{File: f, Old: "\tif !exists {\n\t\tstate = &reconnectState{\n\t\t\tnextDelay: r.cfg.InitialDelay,\n\t\t}\n\t\tr.states[addr] = state\n\t}\n\n\t// Cancel any existing timer\n\tif state.timer != nil {\n\t\tstate.timer.Stop()\n\t}\n", New: "\tif exists {\n\t\tif state.timer != nil {\n\t\t\tstate.timer.Stop()\n\t\t}\n\t} else {\n\t\tstate = &reconnectState{\n\t\t\tnextDelay: r.cfg.InitialDelay,\n\t\t}\n\t\tr.states[addr] = state\n\t}\n"},
+			}},
+			{Name: "rewrite: closed-or-paused predicate in a helper", Edits: []Edit{
+				{File: f, Old: "\tif r.closed || r.paused {\n\t\treturn\n\t}\n\n\tstate, exists := r.states[addr]", New: "\tif r.inactiveLocked() {\n\t\treturn\n\t}\n\n\tstate, exists := r.states[addr]"},
+				{File: f, Old: "\tif !exists || r.closed || r.paused {\n", New: "\tif !exists || r.inactiveLocked() {\n"},
+				{File: f, Old: "// addJitter adds random jitter to a duration.", New: "func (r *Reconnector) inactiveLocked() bool {\n\treturn r.closed || r.paused\n}\n\n// addJitter adds random jitter to a duration."},
+			}},
+			{Name: "rewrite: attempt split into beginAttempt (nil = do not start) and the rest", Edits: []Edit{
+				{File: f, Old: "func (r *Reconnector) attemptReconnect(addr string) {\n\tr.mu.Lock()\n\tstate, exists := r.states[addr]\n", New: "func (r *Reconnector) beginAttempt(addr string) *reconnectState {\n\tr.mu.Lock()\n\tstate, exists := r.states[addr]\n"},
+				{File: f, Old: "\t\t// while paused. State is preserved for Resume().\n\t\tr.mu.Unlock()\n\t\treturn\n\t}\n", New: "\t\tr.mu.Unlock()\n\t\treturn nil\n\t}\n"},
+				{File: f, Old: "\tstate.nextDelay = nextDelay\n\tr.mu.Unlock()\n\n\t// Attempt reconnection\n\terr := r.callback(addr)\n", New: "\tstate.nextDelay = nextDelay\n\tr.mu.Unlock()\n\treturn state\n}\n\nfunc (r *Reconnector) attemptReconnect(addr string) {\n\tstate := r.beginAttempt(addr)\n\tif state == nil {\n\t\treturn\n\t}\n\n\terr := r.callback(addr)\n"},
+			}},
+			{Name: "beginAttempt form that forgets the paused flag", ExpectRule: "C31.R1", ExpectKey: "callback call", Edits: []Edit{
+				{File: f, Old: "func (r *Reconnector) attemptReconnect(addr string) {\n\tr.mu.Lock()\n\tstate, exists := r.states[addr]\n\tif !exists || r.closed || r.paused {\n", New: "func (r *Reconnector) beginAttempt(addr string) *reconnectState {\n\tr.mu.Lock()\n\tstate, exists := r.states[addr]\n\tif !exists || r.closed {\n"},
+				{File: f, Old: "\t\t// while paused. State is preserved for Resume().\n\t\tr.mu.Unlock()\n\t\treturn\n\t}\n", New: "\t\tr.mu.Unlock()\n\t\treturn nil\n\t}\n"},
+				{File: f, Old: "\tstate.nextDelay = nextDelay\n\tr.mu.Unlock()\n\n\t// Attempt reconnection\n\terr := r.callback(addr)\n", New: "\tstate.nextDelay = nextDelay\n\tr.mu.Unlock()\n\treturn state\n}\n\nfunc (r *Reconnector) attemptReconnect(addr string) {\n\tstate := r.beginAttempt(addr)\n\tif state == nil {\n\t\treturn\n\t}\n\n\terr := r.callback(addr)\n"},
+			}},
+			{Name: "rewrite: timer created by a helper that takes the delay", Edits: []Edit{
+				{File: f, Old: "\t\t\tdelay := r.addJitter(state.nextDelay)\n\t\t\tstate.timer = time.AfterFunc(delay, func() {\n\t\t\t\tr.attemptReconnect(addr)\n\t\t\t})\n", New: "\t\t\tstate.timer = r.wakeupAfter(addr, state.nextDelay)\n"},
+				{File: f, Old: "// addJitter adds random jitter to a duration.", New: "func (r *Reconnector) wakeupAfter(addr string, d time.Duration) *time.Timer {\n\treturn time.AfterFunc(r.addJitter(d), func() {\n\t\tr.attemptReconnect(addr)\n\t})\n}\n\n// addJitter adds random jitter to a duration."},
+			}},
+			{Name: "stop helper that forgets to stop", ExpectRule: "C31.R2", ExpectKey: "timer replaced", Edits: []Edit{
+				{File: f, Old: "\t// Cancel any existing timer\n\tif state.timer != nil {\n\t\tstate.timer.Stop()\n\t}\n", New: "\tstate.stopTimer()\n"},
+				{File: f, Old: "// addJitter adds random jitter to a duration.", New: "func (s *reconnectState) stopTimer() {\n\tif s.timer == nil {\n\t\treturn\n\t}\n\ts.lastAttempt = time.Now()\n}\n\n// addJitter adds random jitter to a duration."},
+			}},
 			// behaviour-preserving rewrites
 			{Name: "rewrite: paused tested through the locked accessor pattern (flag copied under the lock)", Edits: []Edit{
 				{File: f, Old: "\tif err != nil {\n\t\tif r.paused {", New: "\tpausedNow := r.paused\n\tif err != nil {\n\t\tif pausedNow {"},
@@ -374,12 +406,7 @@ func runC31(p *kit.Program, r *kit.Report) {
 		fname := kit.FuncName(acc.Fn)
 		ord[fname]++
 		key := fmt.Sprintf("%s timer cleared #%d", fname, ord[fname])
-		stopped := false
-		for _, c := range kit.CallsTo(acc.Fn, "time", "Timer", "Stop") {
-			if lf, base := kit.LoadedField(kit.Receiver(c)); lf == cx.stTimer && base == acc.Base && kit.Precedes(c, acc.Instr) {
-				stopped = true
-			}
-		}
+		stopped, _ := cx.timerStopCovers(acc.Fn, acc.Base, acc.Instr)
 		r.Decide(stopped, "C31.R2", key, p.Pos(acc.Instr.Pos()), "Stop() on the same timer dominates the clearing store",
 			"the timer reference is dropped without Stop(): the old timer still fires after Resume() next to the newly scheduled one, two retry chains halve the backoff delay")
 	}
@@ -499,12 +526,39 @@ func runC31(p *kit.Program, r *kit.Report) {
 		}
 		d := kit.StripConv(kit.Arg(s.in, 0))
 		ok, why := false, "delay argument is neither nextDelay nor jitter(nextDelay)"
+		// the stored delay itself, or a parameter to which every caller passes the stored delay
+		isNext := func(v ssa.Value) bool {
+			v = kit.StripConv(v)
+			if kit.IsLoadOfField(v, cx.stNext) {
+				return true
+			}
+			prm, isParam := v.(*ssa.Parameter)
+			if !isParam || s.fn.Parent() != nil {
+				return false
+			}
+			idx := -1
+			for i, q := range s.fn.Params {
+				if q == prm {
+					idx = i
+				}
+			}
+			callers := p.StaticCallers(s.fn)
+			if idx < 0 || len(callers) == 0 {
+				return false
+			}
+			for _, c := range callers {
+				if idx >= len(c.Common().Args) || !kit.IsLoadOfField(c.Common().Args[idx], cx.stNext) {
+					return false
+				}
+			}
+			return true
+		}
 		switch {
-		case kit.IsLoadOfField(d, cx.stNext):
+		case isNext(d):
 			ok, why = true, "delay is nextDelay"
 		default:
 			if c, isCall := d.(*ssa.Call); isCall {
-				if cal := kit.CalleeOf(c); cal.Static != nil && cal.Static == jitterFn && kit.IsLoadOfField(kit.Arg(c, 0), cx.stNext) {
+				if cal := kit.CalleeOf(c); cal.Static != nil && cal.Static == jitterFn && isNext(kit.Arg(c, 0)) {
 					ok, why = true, "delay is jitter(nextDelay)"
 				}
 			}
@@ -575,10 +629,22 @@ func (cx *c31ctx) impliesNotPaused(cond ssa.Value, val bool, depth int) (ssa.Ins
 	if in, ok := cx.pausedValue(cond); ok {
 		return in, !val
 	}
-	if val {
-		// `state, ok := r.beginAttemptLocked(addr)`: a helper whose true result implies "not paused"
-		if call, idx, ok := kit.ResultOf(cond); ok {
-			if cal := kit.CalleeOf(call); cal.Static != nil && cx.isFunc[cal.Static] && cal.Static.Parent() == nil && cx.trueOnlyWhenNotPaused(cal.Static, idx, call, depth+1) {
+	// a helper of the Reconnector whose result, when it has this value, implies "not paused":
+	// `ok` of beginAttemptLocked(), `inactiveLocked() == false`, ...
+	if call, idx, ok := kit.ResultOf(cond); ok {
+		if cal := kit.CalleeOf(call); cal.Static != nil && cx.isFunc[cal.Static] && cal.Static.Parent() == nil && cx.resultImplies(cal.Static, idx, false, val, call, depth+1) {
+			return call, true
+		}
+	}
+	// `entry := r.beginAttempt(addr); if entry == nil { return }`: a non-nil result implies it
+	if b, isB := cond.(*ssa.BinOp); isB && (b.Op == token.EQL || b.Op == token.NEQ) && (kit.IsNilConst(b.X) || kit.IsNilConst(b.Y)) {
+		other := b.X
+		if kit.IsNilConst(b.X) {
+			other = b.Y
+		}
+		nonNil := (b.Op == token.NEQ) == val
+		if call, idx, ok := kit.ResultOf(other); ok && nonNil {
+			if cal := kit.CalleeOf(call); cal.Static != nil && cx.isFunc[cal.Static] && cal.Static.Parent() == nil && cx.resultImplies(cal.Static, idx, true, false, call, depth+1) {
 				return call, true
 			}
 		}
@@ -638,39 +704,47 @@ func (cx *c31ctx) impliesNotPaused(cond ssa.Value, val bool, depth int) (ssa.Ins
 	return nil, false
 }
 
-// trueOnlyWhenNotPaused: every return of helper m whose result idx may be true is guarded, inside
-// m, by a test of paused (false edge) read under the mutex (held in m or at the call).
-func (cx *c31ctx) trueOnlyWhenNotPaused(m *ssa.Function, idx int, call *ssa.Call, depth int) bool {
-	if depth > 3 || m.Blocks == nil {
+// resultImplies: whenever result idx of helper m is non-nil (nonNil) / equals val (bool), paused was
+// read as false inside m, under the mutex (held in m or at the call).
+func (cx *c31ctx) resultImplies(m *ssa.Function, idx int, nonNil, val bool, call *ssa.Call, depth int) bool {
+	if depth > 4 || m.Blocks == nil {
 		return false
 	}
 	_, heldAtCall := cx.lockInfo(call.Parent()).HeldAt(call, cx.mu)
+	locked := func(read ssa.Instruction) bool {
+		if read.Parent() != m {
+			return false
+		}
+		if _, isCall := read.(*ssa.Call); isCall {
+			return true
+		}
+		_, held := cx.lockInfo(m).HeldAt(read, cx.mu)
+		return held || heldAtCall
+	}
 	n := 0
 	for _, ret := range kit.Returns(m) {
 		if ret.Block() == m.Recover || idx >= len(ret.Results) {
 			continue
 		}
 		res := kit.ReturnResult(ret, idx)
-		b, isConst := kit.ConstBool(res)
-		if !isConst {
-			return false
-		}
-		if !b {
+		if nonNil {
+			if kit.IsNilConst(res) {
+				continue
+			}
+		} else if b, isConst := kit.ConstBool(res); isConst && b != val {
 			continue
 		}
 		n++
 		ok := false
+		if !nonNil {
+			if read, implied := cx.impliesNotPaused(res, val, depth+1); implied && locked(read) {
+				ok = true
+			}
+		}
 		for _, g := range kit.GuardsOf(ret) {
-			read, implied := cx.impliesNotPaused(g.Cond, g.Polarity, depth+1)
-			if !implied || read.Parent() != m {
-				continue
+			if read, implied := cx.impliesNotPaused(g.Cond, g.Polarity, depth+1); implied && locked(read) {
+				ok = true
 			}
-			if _, isCall := read.(*ssa.Call); !isCall {
-				if _, held := cx.lockInfo(m).HeldAt(read, cx.mu); !held && !heldAtCall {
-					continue
-				}
-			}
-			ok = true
 		}
 		if !ok {
 			return false
@@ -852,53 +926,102 @@ func (cx *c31ctx) bounded(v ssa.Value, gs []kit.Guard, depth int, growth *[]ssa.
 	return false, "no comparison with cfg.MaxDelay guards the value"
 }
 
-// timerStopCovers: before instruction `at` in fn, Stop() is called on the timer recorded in the
-// state `base` (unconditionally, or under `if base.timer != nil`), and the mutex is not
-// re-acquired between that Stop and `at`.
+// timerStopCovers: on every condition-consistent path to instruction `at` in fn, the timer recorded
+// in the state `base` has been stopped (Stop() directly or through a helper that stops its
+// argument's timer), is known to be nil (the `timer != nil` test in front of the Stop), or the state
+// was freshly allocated - and the mutex has not been re-acquired since.
 func (cx *c31ctx) timerStopCovers(fn *ssa.Function, base ssa.Value, at ssa.Instruction) (bool, string) {
+	return cx.timerStopCoversD(fn, base, at, 0)
+}
+
+func (cx *c31ctx) timerStopCoversD(fn *ssa.Function, base ssa.Value, at ssa.Instruction, depth int) (bool, string) {
 	p := cx.p
 	li := cx.lockInfo(fn)
-	why := "no Stop() on the recorded timer before it is replaced"
-	for _, c := range kit.CallsTo(fn, "time", "Timer", "Stop") {
-		lf, b0 := kit.LoadedField(kit.Receiver(c))
-		if lf != cx.stTimer || b0 != base {
-			continue
-		}
-		covers := kit.Precedes(c, at)
-		if !covers {
-			blk := c.Block()
-			if len(blk.Preds) == 1 && len(blk.Preds[0].Instrs) > 0 {
-				if ifi, ok := blk.Preds[0].Instrs[len(blk.Preds[0].Instrs)-1].(*ssa.If); ok && kit.Precedes(ifi, at) {
-					if b, ok := ifi.Cond.(*ssa.BinOp); ok && (b.Op == token.NEQ || b.Op == token.EQL) {
-						other := b.X
-						if kit.IsNilConst(b.X) {
-							other = b.Y
+	leaves := map[ssa.Value]bool{base: true}
+	for _, l := range kit.PhiLeaves(base) {
+		leaves[l] = true
+	}
+	isTimerOf := func(v ssa.Value) bool { // v = load of <leaf>.timer
+		lf, b0 := kit.LoadedField(v)
+		return lf == cx.stTimer && leaves[b0]
+	}
+	cov := map[ssa.Instruction]bool{}
+	kit.Instrs(fn, func(in ssa.Instruction) {
+		switch x := in.(type) {
+		case *ssa.Alloc:
+			if leaves[x] {
+				cov[in] = true // fresh state: no timer recorded yet
+			}
+		case ssa.CallInstruction:
+			cal := kit.CalleeOf(x)
+			if cal.Pkg == "time" && cal.Recv == "Timer" && cal.Name == "Stop" && isTimerOf(kit.Receiver(x)) {
+				// `if s.timer != nil { s.timer.Stop() }`: the test itself covers both edges
+				blk := in.Block()
+				if len(blk.Preds) == 1 && len(blk.Preds[0].Instrs) > 0 {
+					if ifi, ok := blk.Preds[0].Instrs[len(blk.Preds[0].Instrs)-1].(*ssa.If); ok {
+						if b, ok := ifi.Cond.(*ssa.BinOp); ok && (b.Op == token.NEQ || b.Op == token.EQL) && (kit.IsNilConst(b.X) || kit.IsNilConst(b.Y)) {
+							other := b.X
+							if kit.IsNilConst(b.X) {
+								other = b.Y
+							}
+							onNonNilEdge := (b.Op == token.NEQ && blk == blk.Preds[0].Succs[0]) || (b.Op == token.EQL && blk == blk.Preds[0].Succs[1])
+							if isTimerOf(other) && onNonNilEdge {
+								cov[ifi] = true
+							}
 						}
-						f2, b2 := kit.LoadedField(other)
-						onNonNilEdge := (b.Op == token.NEQ && blk == blk.Preds[0].Succs[0]) || (b.Op == token.EQL && blk == blk.Preds[0].Succs[1])
-						if f2 == cx.stTimer && b2 == base && onNonNilEdge {
-							covers = true
+					}
+				}
+				cov[in] = true
+				return
+			}
+			// helper that stops the timer of the state it is given
+			if depth < 2 && cal.Static != nil && cal.Static.Blocks != nil && cal.Static != fn && kit.IsRepoPkg(cal.Pkg) {
+				for i, a := range x.Common().Args {
+					if !leaves[a] || i >= len(cal.Static.Params) {
+						continue
+					}
+					all := true
+					n := 0
+					for _, ret := range kit.Returns(cal.Static) {
+						if ret.Block() == cal.Static.Recover {
+							continue
 						}
+						n++
+						if ok, _ := cx.timerStopCoversD(cal.Static, cal.Static.Params[i], ret, depth+1); !ok {
+							all = false
+						}
+					}
+					if all && n > 0 {
+						cov[in] = true
 					}
 				}
 			}
 		}
-		if !covers {
-			continue
-		}
-		relocked := false
+	})
+	// a cover from an earlier critical section does not count
+	stale := ""
+	for c := range cov {
 		for _, op := range li.Ops {
 			if op.Mutex == cx.mu && op.Acquire && !op.Defer && kit.CanReach(c, op.Instr) && kit.CanReach(op.Instr, at) {
-				relocked = true
+				delete(cov, c)
+				stale = p.Pos(c.Pos())
 			}
 		}
-		if relocked {
-			why = "the Stop() at " + p.Pos(c.Pos()) + " belongs to an earlier critical section (the mutex was released since, a timer may have been recorded in between)"
-			continue
-		}
-		return true, "Stop() on the recorded timer at " + p.Pos(c.Pos()) + " in the same critical section"
 	}
-	return false, why
+	if path, found := kit.PathAvoiding(fn, at, func(in ssa.Instruction) bool { return cov[in] }); found {
+		if len(cov) == 0 && stale != "" {
+			return false, "the Stop() at " + stale + " belongs to an earlier critical section (the mutex was released since, a timer may have been recorded in between)"
+		}
+		if len(cov) == 0 {
+			return false, "no Stop() on the recorded timer before it is replaced"
+		}
+		blocks := ""
+		for _, b := range path {
+			blocks += fmt.Sprintf(" %d", b.Index)
+		}
+		return false, "a path (blocks" + blocks + ") reaches the replacement without Stop() on the recorded timer"
+	}
+	return true, "the recorded timer is stopped (or known nil / freshly created) on every path, in the same critical section"
 }
 
 // c31NarrowedBetween: walking from outer through conversions down to inner, a float value is
